@@ -1,0 +1,33 @@
+//go:build verif && (verif_all || verif_c01 || verif_c06)
+// +build verif
+// +build verif_all verif_c01 verif_c06
+
+package gocql
+
+// Verification hooks (build tag `verif`) for C01, round 7: schedule points inside Conn.exec and
+// Conn.releaseStream on the bare connection of verif_export_c06b.go. The public StreamObserver API is what
+// gives user code a foothold there (StreamContext after the id was reserved, StreamStarted after addCall,
+// StreamFinished inside releaseStream after streams.Clear); a request whose buildFrame fails drives the
+// "nothing was written" exit of exec. Add-only thin wrappers.
+
+import (
+	"context"
+	"errors"
+)
+
+// VerifC01fSetStreamObserver installs o as the connection's StreamObserver (what Session.dialWithoutObserver copies
+// from the session into the Conn literal). Call once, before any request.
+func (v *VerifC06Conn) VerifC01fSetStreamObserver(o StreamObserver) { v.c.streamObserver = o }
+
+var errVerifC01fBuild = errors.New("verif: buildFrame failed")
+
+type verifC01fBadFrame struct{}
+
+func (verifC01fBadFrame) buildFrame(*framer, int) error { return errVerifC01fBuild }
+
+// VerifC01fExecBadFrame runs Conn.exec with a request whose buildFrame returns an error (nothing is written).
+// isBuildErr: the error exec returned is that very error.
+func (v *VerifC06Conn) VerifC01fExecBadFrame(ctx context.Context) (isBuildErr bool, err error) {
+	_, err = v.c.exec(ctx, verifC01fBadFrame{}, nil)
+	return errors.Is(err, errVerifC01fBuild), err
+}
